@@ -434,15 +434,25 @@ func (g *rtGen) message(r *Rng, named bool) map[string]any {
 			case 0:
 				delete(d, "startTime")
 				delete(trips[0], "startTime")
-				if r.Bool() {
+				switch r.Intn(3) {
+				case 0:
 					d["startTime"] = bstr(r.Pick([]string{"00:00:00", "00:00:01"}))
-				} else {
+				case 1:
 					trips[0]["startTime"] = bstr(r.Pick([]string{"00:00:00", "00:00:01"}))
+				default:
+					// both present and different: the order between them is by start time
+					pair := [][2]string{{"00:00:01", "00:00:02"}, {"10:00:00", "09:00:00"}, {"00:00:00", "23:59:59"}, {"24:00:00", "23:59:59"}}[r.Intn(4)]
+					trips[0]["startTime"], d["startTime"] = bstr(pair[0]), bstr(pair[1])
 				}
 			case 1:
 				delete(d, "startDate")
 				delete(trips[0], "startDate")
-				d["startDate"] = bstr(r.Pick([]string{"19700101", "00010101", "20240102"}))
+				if r.Bool() {
+					d["startDate"] = bstr(r.Pick([]string{"19700101", "00010101", "20240102"}))
+				} else {
+					pair := [][2]string{{"20240102", "20240103"}, {"20241231", "20240101"}, {"19700101", "19691231"}}[r.Intn(3)]
+					trips[0]["startDate"], d["startDate"] = bstr(pair[0]), bstr(pair[1])
+				}
 			case 2:
 				delete(d, "directionId")
 				delete(trips[0], "directionId")
